@@ -5,7 +5,10 @@ every run; Model/C14_column.v models integrate_column (numpy.trapezoid on one la
 integrate_water_vapor (both forms), column_relative_humidity, pressure2height and standard_atmosphere on lists of reals,
 and Props/C14.v proves the laws of the property about that model. Model/C14_forms.v puts the two IWV formulations side by
 side over z = pressure2height(p, T_v) (the hydrostatic height of the moist column); their exact layer-by-layer difference,
-its bounds and the limit under grid refinement are theorems, swept on the implementation below.
+its bounds and the limit under grid refinement are theorems, swept on the implementation below. Model/C14_quad.v puts each
+quadrature against the continuum integral (Coquelicot RInt): convergence on every sequence of grids whose mesh vanishes, the
+C^2 / Lipschitz error bounds, and two analytic columns with closed forms whose proved bounds are checked on the implementation
+on refined grids (continuum cases / laws below).
 
 Tie (1): pointwise enclosures -- Coq's interval tactic proves that the real-valued model, evaluated at the very inputs
 the implementation was called with, lies within a conditioning-based tolerance of the float the implementation returned
@@ -26,6 +29,7 @@ NEEDED = ["atmosphere." + f for f in (
     "e_eq_mixed_mk", "e_eq_water_mk", "e_eq_ice_mk", "isa_table")]
 REQ = ("From Coq Require Import List Lia.\nImport ListNotations.\nFrom TyphonGen Require Import atmosphere.\n"
        "From Typhon Require Import Model.C14_column Model.C14_forms Proofs.C09_humidity Proofs.C14_hydro.")
+REQ_CONT = ("From TyphonGen Require Import atmosphere.\nFrom Typhon Require Import Model.C14_quad.")
 REQ_BARE = ("From Coq Require Import List Lia.\nImport ListNotations.\nFrom TyphonGen Require Import atmosphere.\n"
             "From Typhon Require Import Model.C14_column Model.C14_forms.")
 TRUSTED = [
@@ -38,6 +42,9 @@ TRUSTED = [
     "the tree under test and compared with the translated constants on every run",
     "the two IWV formulations are compared over z = pressure2height(p, T_v), the code's own hydrostatic height at the virtual "
     "temperature T_v = T R_v / (R_d ((1 - x) Md / Mw + x)) (the harness forms T_v; the theorems are about exactly this z)",
+    "continuum theorems (convergence, error bounds) are about the real-valued list model applied to an integrand sampled on the "
+    "grid; the implementation is tied to them through the enclosures of trapz / iwv_hydro / iwv_general and by evaluating it on "
+    "the two analytic columns (the harness samples the profiles in floating point; the slack covers that rounding)",
 ]
 EPS = float(np.finfo(float).eps)
 SAT = ("repeat first [rewrite mixed_is_ice by (unfold c_triple_point_water; lra) | "
@@ -310,6 +317,85 @@ def enclosure_cases(ctx, mc, atm, have_hydro):
     return cases, raised
 
 
+# ----------------------------------------------------------------------------- continuum cases (analytic columns)
+
+def constants_of(atm):
+    from typhon import constants
+    return (float(constants.earth_standard_gravity), float(constants.gas_constant_water_vapor),
+            float(constants.molar_mass_dry_air), float(constants.molar_mass_water))
+
+
+def expo_column(atm, mc, x0, p0, T0, Hx, Hp, zs):
+    """Exponential water-vapour density (isothermal column, vmr = x0 exp(-z/Hx), p = p0 exp(-z/Hp)) sampled on the heights zs
+    (from 0 upwards): the general form of integrate_water_vapor on the implementation, the closed form of the integral
+    (expo_column of Model/C14_quad.v), the proved bound Z h^2 k^2 rho0 / 12 of iwv_exponential_column and the rounding slack."""
+    g, Rv, Md, Mw = constants_of(atm)
+    Z, h = float(zs[-1]), float(np.max(np.diff(zs)))
+    vmr, p, T = x0 * np.exp(-zs / Hx), p0 * np.exp(-zs / Hp), np.full(zs.size, T0)
+    val = float(call(atm.integrate_water_vapor, vmr, p, T, zs))
+    rho0, k = x0 * p0 / (Rv * T0), 1 / Hx + 1 / Hp
+    closed = rho0 * -math.expm1(-k * Z) / k
+    bound = Z * h ** 2 * k ** 2 * rho0 / 12
+    return val, closed, bound, 8 * (zs.size + 64) * EPS * closed + 1e-9 * bound, Z, h
+
+
+def quad_column(atm, mc, q0, pg):
+    """Specific humidity q0 (p / ps)^2 sampled on the pressures pg (from ps downwards), handed over as vmr: the hydrostatic form
+    on the implementation, the closed form q0 (ps^3 - p1^3) / (3 ps^2 g), the proved bound (ps - p1) h^2 (2 q0 / ps^2) / (12 g)
+    of iwv_quadratic_column and the rounding slack."""
+    g, Rv, Md, Mw = constants_of(atm)
+    ps, p1, h = float(pg[0]), float(pg[-1]), float(np.max(-np.diff(pg)))
+    q = q0 * (pg / ps) ** 2
+    vmr = q / ((1 - q) * Mw / Md + q)            # specific humidity -> vmr, written out here
+    val = float(call(atm.integrate_water_vapor, vmr, pg))
+    closed = q0 * (ps ** 3 - p1 ** 3) / (3 * ps ** 2) / g
+    bound = (ps - p1) * h ** 2 * (2 * q0 / ps ** 2) / 12 / g
+    return val, closed, bound, 8 * (pg.size + 64) * EPS * closed + 1e-9 * bound, ps, p1, h
+
+
+def refined_grid(rng, lo, hi, layers, uniform):
+    if uniform:
+        return np.linspace(lo, hi, layers + 1)
+    g = grid(rng, layers + 1, "irregular", min(lo, hi), max(lo, hi))
+    return g if lo < hi else g[::-1].copy()
+
+
+def continuum_cases(ctx, mc, atm):
+    """Goals for Coq: the value the implementation returns on a refined grid lies within the PROVED bound (plus rounding slack)
+    of the closed form, both written with the definitions of Model/C14_quad.v the theorems iwv_exponential_column /
+    iwv_quadratic_column are about:  |value - closed| / (bound + slack) <= 1."""
+    rng = np.random.default_rng(ctx.seed + 1414)
+    cases, raised = [], []
+    for r in range(ctx.n(2, 6)):
+        x0, p0, T0 = nice(rng.uniform(0.005, 0.04), 3), nice(rng.uniform(950e2, 1040e2), 4), nice(rng.uniform(230, 300), 3)
+        Hx, Hp, Ztop = nice(rng.uniform(1500, 4000), 3), nice(rng.uniform(6500, 8500), 3), nice(rng.uniform(6000, 20000), 3)
+        q0, ps, ptop = nice(rng.uniform(0.002, 0.02), 3), nice(rng.uniform(950e2, 1040e2), 4), nice(rng.uniform(100e2, 400e2), 3)
+        for layers in (8, 64, 512):
+            uniform = (r + layers) % 2 == 0
+            try:
+                zs = refined_grid(rng, 0.0, Ztop, layers, uniform)
+                val, closed, bound, slack, Z, h = expo_column(atm, mc, x0, p0, T0, Hx, Hp, zs)
+                par = " ".join(encl.rlit(v) for v in (x0, p0, T0, Hx, Hp))
+                cases.append({"expr": f"(({encl.rlit(val)} - expo_column {par} {encl.rlit(Z)}) / ({encl.rlit(Z)} * {encl.rlit(h)} ^ 2 * "
+                                      f"expo_curvature {par} / 12 + {encl.rlit(slack)}))", "value": 0.0, "tol": 1.0,
+                              "prep": "unfold expo_column, expo_curvature, c_gas_constant_water_vapor; cbv zeta.",
+                              "meta": {"fn": "integrate_water_vapor.continuum-general", "value": val, "closed_form": closed, "bound": bound,
+                                       "args": {"x0": x0, "p0": p0, "T0": T0, "Hx": Hx, "Hp": Hp, "Z": Z, "layers": layers,
+                                                "grid": "uniform" if uniform else "irregular", "h": h}}})
+                pg = refined_grid(rng, ps, ptop, layers, uniform)
+                val, closed, bound, slack, ps_, p1_, h = quad_column(atm, mc, q0, pg)
+                cases.append({"expr": f"(({encl.rlit(val)} - quad_column {encl.rlit(q0)} {encl.rlit(ps_)} {encl.rlit(p1_)}) / "
+                                      f"(({encl.rlit(ps_)} - {encl.rlit(p1_)}) * {encl.rlit(h)} ^ 2 * (2 * {encl.rlit(q0)} / {encl.rlit(ps_)} ^ 2) "
+                                      f"/ 12 / c_earth_standard_gravity + {encl.rlit(slack)}))", "value": 0.0, "tol": 1.0,
+                              "prep": "unfold quad_column, c_earth_standard_gravity.",
+                              "meta": {"fn": "integrate_water_vapor.continuum-hydrostatic", "value": val, "closed_form": closed, "bound": bound,
+                                       "args": {"q0": q0, "ps": ps_, "p1": p1_, "layers": layers,
+                                                "grid": "uniform" if uniform else "irregular", "h": h}}})
+            except Raised as e:
+                raised.append(("integrate_water_vapor.continuum", str(e), {"layers": layers}))
+    return cases, raised
+
+
 # ----------------------------------------------------------------------------- law sweep on the implementation (tie 2)
 
 def law_sweep(ctx, mc, atm, only=None):
@@ -552,7 +638,48 @@ def law_sweep(ctx, mc, atm, only=None):
                 bad("integrate_water_vapor:forms-converge", "hydrostatic and general IWV do not approach each other on refined grids: "
                     f"relative differences {D} on {case['levels']} levels", case)
 
+    def continuum_laws():
+        """trapz_error_bound_C2 (+ _on_decreasing_grids) on A exp(-k x) over [0, Z], iwv_exponential_column and iwv_quadratic_column of
+        Props/C14.v on the implementation: on uniform and irregular grids of 16 ... 8192 layers the returned value lies within the
+        proved bound (b - a) h^2 M / 12 (h the largest step, M the constant of the analytic profile) of the closed form of the integral"""
+        crng = np.random.default_rng(ctx.seed + 1415)      # its own stream: the cases of the other laws stay what they were
+        sizes = (16, 128, 1024, 8192) if not ctx.thorough else (16, 64, 256, 1024, 4096, 10000)
+        for r in range(ctx.n(3, 12)):
+            A, k, Ztop = float(crng.uniform(0.5, 20)), float(crng.uniform(0.05, 3)), float(crng.uniform(0.5, 6))
+            x0, p0, T0 = float(crng.uniform(0.005, 0.04)), float(crng.uniform(950e2, 1040e2)), float(crng.uniform(230, 300))
+            Hx, Hp, Zcol = float(crng.uniform(1500, 4000)), float(crng.uniform(6500, 8500)), float(crng.uniform(6000, 20000))
+            q0, ps, ptop = float(crng.uniform(0.002, 0.02)), float(crng.uniform(950e2, 1040e2)), float(crng.uniform(100e2, 400e2))
+            for layers in sizes:
+                for uniform in (True, False):
+                    kind = "uniform" if uniform else "irregular"
+                    evals[0] += 4
+                    for down in (False, True):
+                        xs = refined_grid(crng, Ztop if down else 0.0, 0.0 if down else Ztop, layers, uniform)
+                        Z, h = float(max(xs[0], xs[-1])), float(np.max(np.abs(np.diff(xs))))
+                        val = float(call(mc.integrate_column, A * np.exp(-k * xs), xs))
+                        closed = A * -math.expm1(-k * Z) / k * (-1 if down else 1)
+                        bound = Z * h ** 2 * k ** 2 * A / 12
+                        if not abs(val - closed) <= bound * (1 + 1e-9) + 8 * (layers + 64) * EPS * abs(closed):
+                            bad("integrate_column:continuum", f"integrate_column of {A!r} exp(-{k!r} x) on a {kind} grid of {layers} layers "
+                                f"from {float(xs[0])!r} to {float(xs[-1])!r} is {val!r}; the integral is {closed!r} and the trapezoidal rule is proved to "
+                                f"lie within (b - a) h^2 M / 12 = {bound!r} of it (h = {h!r})",
+                                {"law": "continuum", "A": A, "k": k, "from": float(xs[0]), "to": float(xs[-1]), "layers": layers, "grid": kind})
+                    zs = refined_grid(crng, 0.0, Zcol, layers, uniform)
+                    val, closed, bound, slack, Z, h = expo_column(atm, mc, x0, p0, T0, Hx, Hp, zs)
+                    if not abs(val - closed) <= bound + slack:
+                        bad("integrate_water_vapor:continuum", f"general form on the exponential column ({kind} grid, {layers} layers up to {Z!r} m): "
+                            f"{val!r}, the integral of the vapour density is {closed!r}, proved bound of the quadrature error {bound!r}",
+                            {"law": "continuum-general", "x0": x0, "p0": p0, "T0": T0, "Hx": Hx, "Hp": Hp, "Z": Z, "layers": layers, "grid": kind})
+                    pg = refined_grid(crng, ps, ptop, layers, uniform)
+                    val, closed, bound, slack, ps_, p1_, h = quad_column(atm, mc, q0, pg)
+                    if not abs(val - closed) <= bound + slack:
+                        bad("integrate_water_vapor:continuum", f"hydrostatic form on q = q0 (p / ps)^2 ({kind} grid, {layers} layers from {ps_!r} "
+                            f"to {p1_!r} Pa): {val!r}, -1/g int q dp = {closed!r}, proved bound of the quadrature error {bound!r}",
+                            {"law": "continuum-hydrostatic", "q0": q0, "ps": ps_, "p1": p1_, "layers": layers, "grid": kind})
+
+
     guarded("integrate_water_vapor:laws", iwv_laws)
+    guarded("integrate_water_vapor:continuum", continuum_laws)
     guarded("integrate_water_vapor:forms", iwv_forms)
     guarded("integrate_water_vapor:forms-converge", iwv_convergence)
 
@@ -776,6 +903,31 @@ def run(ctx):
             ctx.cov["evaluations"] += 1
             ctx.fail("failing-input", f"{fn} raised {err} on an admissible input", case=args, impl=err,
                      signature=f"{fn.split('.')[0]}:raises" + ("-nd" if fn.endswith(".nd") else ""))
+        # the analytic columns on refined grids against the closed form of the continuum integral, within the proved bound
+        ok_quad = proved or core.coq_build([core.THEORIES / "Model" / "C14_quad.v"])[0]
+        if ok_quad:
+            ccases, craised = continuum_cases(ctx, mc, atm)
+            cres, clog = encl.enclosure_check(ctx.work / "encl", "c14cont", REQ_CONT, ccases, shard=4)
+            if clog:
+                ctx.log(clog[-1500:])
+            ctx.log(f"continuum cases: {sum(r == 'OK' for r in cres)}/{len(cres)} within the proved bound")
+            for c, r in zip(ccases, cres):
+                ctx.cov["evaluations"] += 1
+                m = c["meta"]
+                fns.setdefault(m["fn"], [0, 0])[0 if r == "OK" else 1] += 1
+                if r == "OK":
+                    ctx.cov["distinct_nontrivial"] += 1
+                else:
+                    ctx.fail("failing-input", f"{m['fn']}: on the analytic column {m['args']} the implementation returns {m['value']!r}; the "
+                             f"continuum integral is {m['closed_form']!r} and the quadrature is proved to lie within {m['bound']!r} of it "
+                             f"(Coq: {r})" + ("  [observed with numpy.trapz provided by the harness]" if shimmed else ""),
+                             case=m["args"], impl=m["value"], model=m["closed_form"], signature="integrate_water_vapor:continuum")
+            for fn, err, args in craised:
+                ctx.cov["evaluations"] += 1
+                ctx.fail("failing-input", f"{fn} raised {err} on an analytic column", case=args, impl=err,
+                         signature="integrate_water_vapor:raises")
+            if ccases:
+                ctx.sample({"fn": ccases[-1]["meta"]["fn"], "value": ccases[-1]["meta"]["value"], "expr": ccases[-1]["expr"][:300]})
         ctx.cov["enclosures"] = {k: {"ok": v[0], "failed": v[1]} for k, v in fns.items()}
         ctx.cov["distinct_nontrivial"] += len({(c["meta"]["fn"], repr(c["meta"]["args"])) for c, r in zip(cases, res) if r == "OK"})
         for c in cases[:2] + cases[-2:]:
@@ -792,14 +944,19 @@ def run(ctx):
                        "arrays of rank 1-4 along every axis, physically admissible vmr / p / T profiles, heights and pressures inside "
                        "and outside the ISA table; distinct and non-trivial = Coq proved the enclosure of the model around the "
                        "implementation's float for a distinct (function, inputs); law_evaluations counts the evaluations of the "
-                       "property's laws on the implementation (grids up to 10^4 levels, exact rational integrals)")
+                       "property's laws on the implementation (grids up to 10^4 levels, exact rational integrals); continuum cases: "
+                       "the implementation on refined grids (8-512 layers in Coq, 16-10^4 in the sweep) of the two analytic columns "
+                       "within the proved quadrature bound of the closed form")
     ctx.cov["input_distribution"] = ("grids: 4 kinds x sizes 2..10^4; integrands uniform / normal / integer; ranks 1-4, axis uniform "
                                      "(also negative); pressure grids irregular in ln p between 1000 hPa and 0.5-300 hPa; "
                                      "T = power law in p plus noise; vmr <= 0.05")
     ctx.assumptions += ["y and x have the same length along the integration axis, x is one-dimensional",
                         "physically admissible profiles: 0 <= vmr <= 1, p > 0 strictly decreasing, T > 0, e_s(T) < p",
                         "IWV forms: the general form is taken over z = pressure2height(p, T_v) (the moist column); the identity, the "
-                        "closeness bounds and the limit are theorems of the model and are swept on the implementation"]
+                        "closeness bounds and the limit are theorems of the model and are swept on the implementation",
+                        "continuum: integrands Riemann-integrable (convergence), C^2 with bounded second derivative or Lipschitz (error "
+                        "bounds) on the range of a monotone grid from a to b; checked on the implementation for the exponential "
+                        "water-vapour column and for q = q0 (p / ps)^2"]
     if shimmed:
         ctx.assumptions.append("numpy.trapz was provided from outside after integrate_column:raises had been recorded")
     return ctx.finish(trusted_base=TRUSTED)
